@@ -221,7 +221,7 @@ META = dict(functions=th.TREE_FUNCTIONS + ["TreeNode.make_edited / editable_dict
             files=th.TREE_FILES + ["graphtage/utils.py"],
             outside=["id()-based tie-break in BoundedComparator (not reached by tree diffs; covered with symbolic items in C17)",
                      "rendered bytes (C06/C13 render the same scripts)"])
-REGIONS = dict(mset_duplicates=lambda w, f: th.has_duplicate_members(w))
+REGIONS = dict(mset_duplicates=lambda w, f: th.matcher_collapse_region(w))
 bounds_text = th.tree_bounds_text
 
 
